@@ -448,7 +448,7 @@ bool exec_one( std::map<uint64_t, World>& worlds, uint64_t& cur, const Tokens& t
             // positions of arguments that must name an existing section
             static const std::map<std::string, std::vector<int>> secargs = {
                 { "secset", { 1 } }, { "dset", { 1 } }, { "dapp", { 1 } }, { "dins", { 1 } },
-                { "free", { 1 } }, { "stradd", { 1 } }, { "strget", { 1 } },
+                { "stradd", { 1 } }, { "strget", { 1 } },
                 { "symadd", { 1 } }, { "symadds", { 1, 2 } }, { "symget", { 1 } }, { "symname", { 1 } },
                 { "symval", { 1 } }, { "symnum", { 1 } }, { "reladd", { 1 } }, { "reladdi", { 1 } },
                 { "relget", { 1 } }, { "relgetf", { 1 } }, { "relset", { 1 } }, { "relswap", { 1 } },
@@ -548,7 +548,8 @@ bool exec_one( std::map<uint64_t, World>& worlds, uint64_t& cur, const Tokens& t
             fputc( '\n', out );
         }
         else if ( op == "free" ) {
-            w.el->sections[(unsigned)num( t[1] )]->free_data();
+            if ( w.el->sections[(unsigned)num( t[1] )] == nullptr ) put_n( out, 111, { num( t[1] ) } );
+            else w.el->sections[(unsigned)num( t[1] )]->free_data();
         }
         else if ( op == "stradd" ) {
             unsigned                i = (unsigned)num( t[1] );
@@ -667,7 +668,8 @@ bool exec_one( std::map<uint64_t, World>& worlds, uint64_t& cur, const Tokens& t
             else obs_segdata( w, out, (unsigned)num( t[1] ) );
         }
         else if ( op == "segfree" ) {
-            w.el->segments[(unsigned)num( t[1] )]->free_data();
+            if ( num( t[1] ) >= w.el->segments.size() ) put_n( out, 111, { num( t[1] ) } );
+            else w.el->segments[(unsigned)num( t[1] )]->free_data();
         }
         else if ( op == "obsall" ) {
             obs_hdr( w, out );
@@ -1094,6 +1096,7 @@ int main( int argc, char** argv )
         pid_t pid  = fork();
         if ( pid == 0 ) {
             dup2( fileno( errf ), 2 );
+            setvbuf( stdout, nullptr, _IOLBF, 0 );
             alarm( timeout_s );
             run_case( c, stdout );
             fflush( stdout );
